@@ -7,7 +7,7 @@
               "badcase ..."    (harness or model defect: unparsable case, or the oracle fails on the model) *)
 From Coq Require Import List String Ascii Bool Arith NArith.
 Import ListNotations.
-Require Import SDJ.Json SDJ.Wire SDJ.Model2 SDJ.Out SDJ.Restore2 SDJ.Split SDJ.SplitM SDJ.Spec SDJ.Verify SDJ.CaseLib SDJ.Issuer2 SDJ.CaseIssue SDJ.CasePresent SDJ.CaseJwt SDJ.CaseHistory SDJ.CaseYaml.
+Require Import SDJ.Json SDJ.Wire SDJ.Model2 SDJ.Out SDJ.Restore2 SDJ.Split SDJ.SplitM SDJ.Spec SDJ.RefVerify SDJ.Verify SDJ.CaseLib SDJ.Issuer2 SDJ.CaseIssue SDJ.CasePresent SDJ.CaseJwt SDJ.CaseHistory SDJ.CaseYaml SDJ.CaseConform.
 Local Open Scope string_scope.
 
 (* ---- C10 / kind "split": sd_jwt_parts on an arbitrary string ---- *)
@@ -44,7 +44,22 @@ Definition case_verify (input obs : json) : verdict :=
   let vh := decide (expect_oracle e (mode_of e "mode_h") (Some 1) (Some 2)) (jget "hverify" obs) (model_hverify O token) nt "Holder::verify" in
   let vv := decide (expect_oracle e (mode_of e "mode_v") (Some 1) None) (jget "vverify" obs) (model_vverify O token kbpol) nt "Verifier::verify" in
   let vp := decide (presentation_oracle e (mode_of e "mode_p")) (jget "presentation" obs) (model_presentation O token) nt "Holder::presentation+build" in
-  worst vh (worst vv vp).
+  (* C08: three-way agreement with the independent reference verifier on reference-issued tokens *)
+  let vr := if jbool (jget "ref_check" input) then
+              match jlist (jget "jwt" input) with
+              | JArr [_; _; payload] :: _ =>
+                  let '(_, ds, _) := sd_jwt_parts token in
+                  match parse_halg (jstr_or_empty (jget "_sd_alg" payload)) with
+                  | Some alg =>
+                      let dec s := match o_dec O s with DJson j => Some j | DErr => None end in
+                      match ref_verify (o_hash O alg) dec payload ds with
+                      | Some c => if json_eqb c (expected_claims e) then VOk false
+                                  else VBad "the reference verifier disagrees with the expected claims"
+                      | None => VBad "the reference verifier rejects a conformant token" end
+                  | None => VBad "ref_check without _sd_alg" end
+              | _ => VBad "ref_check without jwt table" end
+            else VOk false in
+  worst vh (worst vv (worst vp vr)).
 
 Definition run_case (kind : string) (input obs : json) : verdict :=
   if String.eqb kind "split" then case_split input obs
@@ -55,6 +70,8 @@ Definition run_case (kind : string) (input obs : json) : verdict :=
   else if String.eqb kind "decode" then case_decode input obs
   else if String.eqb kind "history" then case_history input obs
   else if String.eqb kind "yaml" then case_yaml input obs
+  else if String.eqb kind "conform" then case_conform input obs
+  else if String.eqb kind "discbuild" then case_discbuild input obs
   else VBad ("unknown kind " ++ kind).
 
 Definition run_line (kind input obs : string) : string :=
